@@ -114,12 +114,6 @@ theorem wf_history {R : Rings} (wf : Wf R) (ops : List Op) (hv : validRun R ops 
     simp only [validRun, Bool.and_eq_true] at hv
     exact ih (Wf_step wf op hv.1) hv.2
 
-private theorem map_erase_head {R : Rings} (wf : Wf R) (j k : Nat) :
-    (members R j).map (fun l => l.erase (Node.head k)) = members R j := by
-  cases hm : members R j with
-  | none => rfl
-  | some l => simp [List.erase_of_not_mem (head_not_mem_members wf hm)]
-
 /-- `new list`: the new list is empty, no other list changes -/
 theorem members_newList (R : Rings) (k j : Nat) :
     members (Spec.step R (.newList k)) j = if j = k then some [] else members R j := by
